@@ -311,6 +311,14 @@ func (h *Harness) ModulePackageSourceAddr(ctx context.Context, pkgAddr regaddr.M
 			// address made through the constructor, from a URL that spells its escaped path out.
 			u := *src.Package().URL()
 			u.RawPath = u.EscapedPath()
+			// ... and that names the host the way the registry's own text spells it
+			raw := v.Real
+			if i := strings.Index(raw, "::"); i >= 0 && !strings.Contains(raw[:i], "/") {
+				raw = raw[i+2:]
+			}
+			if pu, perr := url.Parse(raw); perr == nil && strings.EqualFold(pu.Host, u.Host) {
+				u.Host = pu.Host
+			}
 			if made, merr := sourceaddrs.MakeRemoteSource(src.Package().SourceType(), &u, src.SubPath()); merr == nil {
 				src = made
 			}
